@@ -102,6 +102,9 @@ PROPS = {
                {"group": "g0", "name": "c18_b16_display_len2_bounded", "kind": "bounded", "bound": "2 octets", "tier": "quick",
                 "what": "composition of base16::display over two octets"}]
         ),
+        "replays": [
+            {"bin": "d63_iterscanner_bad_escape", "finding": "D63", "expect": "fail"},
+        ],
         "explanation": "Decoder::{push, finalize} of base64, base32 (extended hex) and base16 and their helpers (real text) are proved "
                        "to implement one step / the end of the RFC 4648 state machines (b64_step, b32_step, b16_step; alphabet tables "
                        "proved equal to the RFC tables), with the representation invariant preserved on every exit, so no index or "
@@ -112,7 +115,7 @@ PROPS = {
         "not_covered": "Multi-chunk encoder output beyond the bounded harnesses rests on slice::chunks composing per chunk (assumed). "
                        "The scanner-side converters are under contract in all three units: SymbolConverter::{process_char, process_tail, process_symbol} of base64 and base32 and SymbolConverter::{process_symbol, process_tail} of base16 (real text; the same state machines as the Decoders, one step per symbol on the character the symbol stands for, a symbol that stands for no character refused, an end-of-token symbol changing nothing); Symbol::into_char itself is a model (which character a symbol stands for: C06 / C07). How the text reaches a converter is under contract for IterScanner (unit iterscan: convert_token / convert_entry feed the symbols in order and call process_tail once, last) and not for the zone-file EntryScanner (its convert_entry rewrites the buffer in place: C07). Standard-alphabet Base32 is not implemented by the "
                        "library. Fixed-capacity targets that refuse to grow (ShortBuf) are outside the contracts (D13). "
-                       "Non-canonical trailing bits are accepted by the decoders (RFC 4648 section 3.5 permits either).",
+                       "Non-canonical trailing bits are accepted by the decoders (RFC 4648 section 3.5 permits either). Open finding D63: IterScanner::convert_token / convert_entry never ask Symbols::ok(), so a malformed escape silently ends the token (in unit iterscan the symbols of a token are a model: the unit proves the converter protocol, not the tokenization).",
         "assumptions": [
             "decode()/decode_hex() iterate a &str (outside Verus' subset): their 4-line loops are represented by caller_model_* functions over the push/finalize contracts",
             "octseq OctetsBuilder/FreezeBuilder/EmptyBuilder are modelled by prelude traits (append_slice appends or fails leaving the content unchanged)",
